@@ -59,6 +59,16 @@ def main():
         # anticipate).  The property is then not shown to hold on this tree: report it as such, naming what stopped.
         tb = traceback.format_exc()
         traceback.print_exc()
+        # first give the property's own witness search a chance: an implementation that makes the driver stumble
+        # usually fails the implementation-only statement of the property on some concrete input as well
+        try:
+            ctx.obligation_errors.append(f"the correspondence/oracle run stopped with {type(e).__name__}: {e}\n{tb[-1500:]}")
+            rc = common.finish(ctx, getattr(mod, "search", None))
+            sys.exit(rc or 1)
+        except SystemExit:
+            raise
+        except Exception:  # noqa: BLE001
+            traceback.print_exc()
         ctx.cleanup()
         import hashlib, json
         rep = common.VERIF / "replays"
